@@ -150,6 +150,31 @@ def gen_requests(tier, rng, kinds=KINDS, endpoints=None, n_random=None, avoid_cr
                     l = req_line(variants[i % 2], kind, auth, "aaa", secret, eps[0], "https://client/cb" if i % 3 == 0 else None, a1, a2, a3, SCOPES[i % 3], extras)
                     if l:
                         out.append((l, "colliding-extras/" + kind))
+    # a per-request redirect override that differs from the client's default only in spelling (same parsed URL): the override
+    # still wins, character for character
+    spellings = [("https://client.example.com", "https://client.example.com/"), ("https://client.example.com/", "https://client.example.com"),
+                 ("https://client.example.com/cb", "https://client.example.com:443/cb"), ("https://client.example.com/cb", "HTTPS://CLIENT.example.com/cb"),
+                 ("https://client.example.com/x/../cb", "https://client.example.com/cb"), ("https://client.example.com/cb?a=b c", "https://client.example.com/cb?a=b%20c"),
+                 ("http://localhost:8080", "http://localhost:8080/"), ("https://client.example.com/cb", "https://client.example.com/cb")]
+    if "code" in kinds:
+        for (dflt, over) in spellings:
+            for auth in ("B", "R"):
+                i += 1
+                l = req_line(variants[i % 2], "code", auth, "aaa", "bbb", (endpoints or eps_default)[0], dflt, C.tb("thecode"), C.topt(None), C.topt(over), [], [])
+                if l:
+                    out.append((l, "redirect-spelling/code"))
+    # very long credentials (beyond the 8 KiB a proxy allows for one header line, beyond 64 KiB): the placement rule does not depend on size
+    for ki, kind in enumerate(kinds):
+        eps = endpoints or (REVOKE_ENDPOINTS if kind == "revoke" else eps_default)
+        for (cid, sec) in (("aaa", "s" * 7000), ("i" * 9000, "bbb"), ("aaa", "秘" * 800), ("客" * 700, "密" * 700), ("aaa", "x" * 70000)):
+            for auth in ("B", "R"):
+                if tier == "quick" and (ki + len(cid) + (auth == "B")) % 2:
+                    continue
+                i += 1
+                a1, a2, a3 = kind_args(kind, rng, STRINGS[:8])
+                l = req_line(variants[i % 2], kind, auth, cid, sec, eps[0], None, a1, a2, a3, [], [])
+                if l:
+                    out.append((l, "long-credentials/" + kind))
     # extension parameters that real deployments add (RFC 7521/7523 assertions, RFC 8693 token exchange, RFC 8707, RFC 9449,
     # OpenID Connect, vendor parameters): they are extras like any other and change nothing else in the request
     ext_names = ["client_assertion", "client_assertion_type", "assertion", "resource", "audience", "requested_token_type", "subject_token", "subject_token_type",
